@@ -172,6 +172,7 @@ loop:
 			break loop
 
 		case queryBid := <-queryBidCh:
+			queryBidCh = nil
 			err := queryBid.Error()
 			bidFound := true
 			if err != nil {
@@ -359,6 +360,25 @@ loop:
 	o.log.Info("shutting down")
 	o.lc.ShutdownInitiated(nil)
 	o.sub.Close()
+
+	// let steps that are still in flight finish, so that what they did is cleaned up below
+	if queryBidCh != nil {
+		if result := <-queryBidCh; result.Error() == nil {
+			o.bidPlaced = true
+		}
+	}
+	if clusterch != nil {
+		if result := <-clusterch; result.Error() == nil {
+			reservation = result.Value().(ctypes.Reservation)
+		}
+		clusterch = nil
+	}
+	if bidch != nil {
+		if result := <-bidch; result.Error() == nil {
+			o.bidPlaced = true
+		}
+		bidch = nil
+	}
 
 	// cancel reservation
 	if !won {
